@@ -626,6 +626,11 @@ def run(repo, rep):
     check_null_table(rep, ops, ad)
     check_wrappers(repo, rep, ops, ad)
     check_int_division(repo, rep)
+    from sa.rules import c02
+    rep.rule('R02e', 'see C02: every operator symbol, aliased or not, '
+             'is reduced to an operator call node (the premise of the kind '
+             'matrix: no operator application bypasses the overloads)')
+    c02.check_actions(repo, rep)
     check_scalar_overloads_plain(repo, rep, ops, ad, uni)
     check_declared_types_decide(repo, rep, ops, uni, ad)
     rep.count(operator_names=len(ops),
